@@ -623,7 +623,8 @@ def marker(ctx, rule, key, P, body, text, cond_ok, expect=1):
 
 
 def fallback_word(P, g, origin):
-    """word used by `.unwrap_or_else(|| "w".to_string())` in a printed origin expression"""
+    """word printed instead of an absent bound: the literal of `.unwrap_or_else(|| "w".to_string())` or the literal
+    alternative of `match bound { Some(v) => v.to_string(), None => "w".to_string() }` in a printed origin expression"""
     words = []
 
     def visit(e):
@@ -633,6 +634,10 @@ def fallback_word(P, g, origin):
             cb = P.bodies.get("%s::%s" % (g.crate, e[2]))
             if cb is not None:
                 words.extend(region_strings(cb, cb.reachable))
+        if e and e[0] in ("constx", "promoted"):
+            w = S.const_str(e, P, g.crate)
+            if w is not None:
+                words.append(w)
         for x in e:
             if isinstance(x, tuple):
                 visit(x)
